@@ -199,7 +199,7 @@ func discharge(obls []*Obligation, opt solveOpts) {
 			if o.Cover {
 				tmo = 3
 			}
-			if !o.Cover && !opt.all {
+			if !o.Cover {
 				// stage 1: the default configuration with a short budget decides almost everything
 				quick := 3
 				if quick > tmo {
@@ -269,12 +269,43 @@ func discharge(obls []*Obligation, opt solveOpts) {
 		go func(h hardItem) {
 			defer wg.Done()
 			defer func() { <-hsem }()
-			rs := raceSolvers(h.o, h.file, 2*h.tmo, h.want)
+			rs := raceSolvers(h.o, h.file, 3*h.tmo, h.want)
 			h.o.Tried = append(h.o.Tried, rs...)
 		}(h)
 	}
 	wg.Wait()
 	hard = nil
+	if opt.all {
+		// thorough: every discharged obligation is also given to the two other solvers for a short time; a
+		// definite answer that differs is a solver disagreement (reported as a machinery defect)
+		csem := make(chan struct{}, opt.jobs)
+		for _, o := range obls {
+			if o.Cover || o.Result != "unsat" || o.File == "" {
+				continue
+			}
+			wg.Add(1)
+			csem <- struct{}{}
+			go func(o *Obligation) {
+				defer wg.Done()
+				defer func() { <-csem }()
+				f2 := o.File + ".x.smt2"
+				_ = os.WriteFile(f2, []byte(o.smt(false)), 0o644)
+				defer os.Remove(f2)
+				for _, s := range solvers {
+					if strings.HasPrefix(o.Solver, s.name) {
+						continue
+					}
+					r, _, ms := runSolver(s, f2, 5)
+					o.Millis += ms
+					o.AllResults = append(o.AllResults, s.name+"(cross-check):"+r)
+					if r == "sat" {
+						o.Disagree = true
+					}
+				}
+			}(o)
+		}
+		wg.Wait()
+	}
 }
 
 type hardItem struct {
